@@ -257,6 +257,83 @@ pub fn builder(r: &mut Rng, n: u64, thorough: bool, out: &mut Out) {
             out.line(&format!("builder f{} 1 {}", k, run_builder(&ops)));
         }
     }
+    if !gen::small() {
+        // near-duplicate scenarios, the same in every run: a value A, then a value B that refers to the id `next_type_id` announces
+        // (the caller is about to register the next distinct value there), then A' = A with exactly ONE component changed. A table that
+        // takes A' for A hands out A's id again, and `finish` then lists B with a reference nobody defines.
+        use scale_info::{Field, TypeDefComposite, TypeDefVariant, TypeParameter, Variant};
+        let fld = |name: Option<&str>, ty: u32, tn: Option<&str>, docs: &[&str]| -> Field<PortableForm> {
+            Field::new(name.map(|x| x.to_string()), ty.into(), tn.map(|x| x.to_string()), docs.iter().map(|x| x.to_string()).collect())
+        };
+        let mk = |path: &[&str], pname: &str, pty: Option<u32>, def: scale_info::TypeDef<PortableForm>, docs: &[&str]| -> Type<PortableForm> {
+            Type::new(
+                Path::from_segments_unchecked(path.iter().map(|x| x.to_string())),
+                vec![TypeParameter::new_portable(pname.to_string(), pty.map(Into::into))],
+                def,
+                docs.iter().map(|x| x.to_string()).collect::<Vec<_>>(),
+            )
+        };
+        let comp = |f: Field<PortableForm>| -> scale_info::TypeDef<PortableForm> { TypeDefComposite::new(vec![fld(Some("e"), 0, None, &[]), f]).into() };
+        let var = |name: &str, f: Field<PortableForm>, idx: u8, docs: &[&str]| -> scale_info::TypeDef<PortableForm> {
+            TypeDefVariant::new(vec![Variant::new(name.to_string(), vec![f], idx, docs.iter().map(|x| x.to_string()).collect::<Vec<_>>())]).into()
+        };
+        let base_c = mk(&["m", "A"], "T", Some(0), comp(fld(Some("f"), 0, Some("u8"), &["d"])), &["D"]);
+        let base_v = mk(&["m", "A"], "T", Some(0), var("V", fld(None, 0, Some("X"), &["fd"]), 1, &["vd"]), &["D"]);
+        let pairs: Vec<(Type<PortableForm>, Type<PortableForm>)> = vec![
+            (base_c.clone(), mk(&["m", "A"], "T", Some(0), comp(fld(Some("f"), 0, Some("Box<u8>"), &["d"])), &["D"])),
+            (base_c.clone(), mk(&["m", "A"], "T", Some(0), comp(fld(Some("f"), 0, None, &["d"])), &["D"])),
+            (base_c.clone(), mk(&["m", "A"], "T", Some(0), comp(fld(Some("g"), 0, Some("u8"), &["d"])), &["D"])),
+            (base_c.clone(), mk(&["m", "A"], "T", Some(0), comp(fld(None, 0, Some("u8"), &["d"])), &["D"])),
+            (base_c.clone(), mk(&["m", "A"], "T", Some(0), comp(fld(Some("f"), 0, Some("u8"), &["d", ""])), &["D"])),
+            (base_c.clone(), mk(&["m", "A"], "T", Some(0), comp(fld(Some("f"), 0, Some("u8"), &[])), &["D"])),
+            (base_c.clone(), mk(&["m", "A"], "T", Some(0), comp(fld(Some("f"), 1, Some("u8"), &["d"])), &["D"])),
+            (base_c.clone(), mk(&["m", "A"], "T", Some(0), comp(fld(Some("f"), 0, Some("u8"), &["d"])), &["D2"])),
+            (base_c.clone(), mk(&["m", "A"], "T", Some(0), comp(fld(Some("f"), 0, Some("u8"), &["d"])), &[])),
+            (base_c.clone(), mk(&["m", "B"], "T", Some(0), comp(fld(Some("f"), 0, Some("u8"), &["d"])), &["D"])),
+            (base_c.clone(), mk(&["n", "A"], "T", Some(0), comp(fld(Some("f"), 0, Some("u8"), &["d"])), &["D"])),
+            (base_c.clone(), mk(&["A"], "T", Some(0), comp(fld(Some("f"), 0, Some("u8"), &["d"])), &["D"])),
+            (base_c.clone(), mk(&["m", "A"], "U", Some(0), comp(fld(Some("f"), 0, Some("u8"), &["d"])), &["D"])),
+            (base_c.clone(), mk(&["m", "A"], "T", None, comp(fld(Some("f"), 0, Some("u8"), &["d"])), &["D"])),
+            (base_c.clone(), mk(&["m", "A"], "T", Some(1), comp(fld(Some("f"), 0, Some("u8"), &["d"])), &["D"])),
+            (base_v.clone(), mk(&["m", "A"], "T", Some(0), var("W", fld(None, 0, Some("X"), &["fd"]), 1, &["vd"]), &["D"])),
+            (base_v.clone(), mk(&["m", "A"], "T", Some(0), var("V", fld(None, 0, Some("X"), &["fd"]), 2, &["vd"]), &["D"])),
+            (base_v.clone(), mk(&["m", "A"], "T", Some(0), var("V", fld(None, 0, Some("X"), &["fd"]), 1, &["vd2"]), &["D"])),
+            (base_v.clone(), mk(&["m", "A"], "T", Some(0), var("V", fld(None, 0, Some("X"), &["fd"]), 1, &[]), &["D"])),
+            (base_v.clone(), mk(&["m", "A"], "T", Some(0), var("V", fld(None, 0, Some("Y"), &["fd"]), 1, &["vd"]), &["D"])),
+            (base_v.clone(), mk(&["m", "A"], "T", Some(0), var("V", fld(None, 0, Some("X"), &[]), 1, &["vd"]), &["D"])),
+            (base_v.clone(), mk(&["m", "A"], "T", Some(0), var("V", fld(Some("x"), 0, Some("X"), &["fd"]), 1, &["vd"]), &["D"])),
+            (base_v.clone(), mk(&["m", "A"], "T", Some(0), var("V", fld(None, 1, Some("X"), &["fd"]), 1, &["vd"]), &["D"])),
+            (base_c.clone(), base_v.clone()),
+        ];
+        for (k, (a, a2)) in pairs.into_iter().enumerate() {
+            for order in 0..2 {
+                let (x, y) = if order == 0 { (a.clone(), a2.clone()) } else { (a2.clone(), a.clone()) };
+                // ids: prim 0, x 1, B 2 (refers to 3 = the id announced for the next distinct value), y 3
+                let prim: Type<PortableForm> = Type::new(Path::from_segments_unchecked(Vec::<String>::new()), Vec::new(), scale_info::TypeDefPrimitive::U8, Vec::<String>::new());
+                let bref: Type<PortableForm> = Type::new(
+                    Path::from_segments_unchecked(vec!["m".to_string(), "B".to_string()]),
+                    Vec::new(),
+                    scale_info::TypeDefSequence::new(3u32.into()),
+                    Vec::<String>::new(),
+                );
+                let ops = vec![
+                    BOp::Reg(prim),
+                    BOp::Reg(x.clone()),
+                    BOp::Next,
+                    BOp::Reg(bref),
+                    BOp::Next,
+                    BOp::Reg(y.clone()),
+                    BOp::Next,
+                    BOp::Get(3),
+                    BOp::Reg(x),
+                    BOp::Reg(y),
+                    BOp::Next,
+                    BOp::Finish,
+                ];
+                out.line(&format!("builder d{}_{} 1 {}", k, order, run_builder(&ops)));
+            }
+        }
+    }
     for case in 0..n {
         let len = r.below(if gen::small() { 5 } else if thorough { 60 } else { 25 }) as usize;
         // a small pool of values forces duplicates arriving after unrelated insertions
@@ -427,6 +504,20 @@ pub fn path(r: &mut Rng, n: u64, thorough: bool, out: &mut Out) {
                 code /= ALPHA.len();
             }
             out.line(&format!("path x{} {}", case, run_path_seg(&[s])));
+            case += 1;
+        }
+    }
+    // every character outside ASCII is rejected, whatever its UTF-8 bytes look like when read as ASCII: the whole two-byte range
+    // U+0080..U+07FF (every lead / continuation byte combination), then a sample of the three- and four-byte ranges, each alone,
+    // after and before a valid character, and after the raw prefix; plus every single ASCII byte
+    let step3 = if thorough { 7 } else { 97 };
+    let mut chars: Vec<char> = (0x80u32..0x800).filter_map(char::from_u32).collect();
+    chars.extend((0x800u32..0x10000).step_by(step3).filter_map(char::from_u32));
+    chars.extend((0x10000u32..0x110000).step_by(step3 * 131).filter_map(char::from_u32));
+    chars.extend((0u32..0x80).filter_map(char::from_u32));
+    for c in chars {
+        for s in [format!("{c}"), format!("a{c}"), format!("{c}a"), format!("r#{c}"), format!("_{c}9")] {
+            out.line(&format!("path u{} {}", case, run_path_seg(&[s])));
             case += 1;
         }
     }
